@@ -145,7 +145,7 @@ def gen_lexing(rng, n):
 # ---- 1b. unterminated / badly escaped string and character literals of every length ------------------------------------
 
 LITERAL_LENGTHS = [1, 2, 3, 5, 8, 12, 16] + list(range(20, 61)) + [64, 70, 80, 100, 128, 150, 200]
-LEX_WATCHDOG = 5.0      # the lexer has to refuse these at once: a short limit of their own
+LEX_WATCHDOG = 3.0      # the lexer has to refuse these at once: a short limit of their own (expiries are confirmed at 8 s)
 
 
 def gen_unterminated(rng, n):
